@@ -146,6 +146,25 @@ Definition move_parser_actions (opt : str) (sub : table) : table :=
 
 Definition as_inner_parser (opt : str) (fs : list field) : table := move_parser_actions opt (inner_table fs).
 
+(* the repaired tree (fixes/C07-inner-hyphen-required.patch): required_args are prefixed like the dests *)
+Definition move_parser_actions_fixed (opt : str) (sub : table) : table :=
+  let prefix := skipn 2 opt in
+  let dest := replace_dash prefix in
+  {| t_rows := t_rows (move_parser_actions opt sub);
+     t_required := map (fun x => dest ++ [c_dot] ++ x) (t_required sub) |}.
+
+Definition as_inner_parser_fixed (opt : str) (fs : list field) : table :=
+  move_parser_actions_fixed opt (inner_table fs).
+
+(* ---- the documented signature rules as a normal form of the field list ----
+   What the signature styles make of a field list: the add_argument styles (dotted, inner parser) are declared
+   from this normal form, so that all four declarations describe the same set of options. *)
+Definition norm (fs : list field) : list field := flat_map sig_norm fs.
+
+(* a table plus the group's _ActionConfigLoad row in front: how the three grouped styles relate to the dotted one *)
+Definition with_load (gk : str) (T : table) : table :=
+  {| t_rows := group_load_row gk :: t_rows T; t_required := t_required T |}.
+
 (* ---- guards on the declaration ---- *)
 (* a field the signature rules leave alone *)
 Definition explicit_field (f : field) : bool :=
@@ -154,6 +173,10 @@ Definition explicit_field (f : field) : bool :=
   | Dflt v => negb (starts_underscore (f_name f)) && (negb (is_none v) || is_optional (f_ty f))
   end.
 Definition explicit (fs : list field) : bool := forallb explicit_field fs.
+
+Definition has_dot (s : str) : bool := existsb (fun c => N.eqb c c_dot) s.
+Definition starts_dash (s : str) : bool := match s with c :: _ => N.eqb c c_dash | [] => false end.
+Definition is_nil {A} (l : list A) : bool := match l with [] => true | _ => false end.
 
 Definition has_dash (s : str) : bool := existsb (fun c => N.eqb c c_dash) s.
 Definition has_required (fs : list field) : bool :=
@@ -191,6 +214,16 @@ Fixpoint val_eqb (a b : val) {struct a} : bool :=
          end) x y
   | _, _ => false
   end.
+
+Definition dflt_eqb (a b : dflt) : bool :=
+  match a, b with
+  | NoDefault, NoDefault => true
+  | Dflt x, Dflt y => val_eqb x y
+  | _, _ => false
+  end.
+
+Definition field_eqb (a b : field) : bool :=
+  str_eqb (f_name a) (f_name b) && ty_eqb (f_ty a) (f_ty b) && dflt_eqb (f_default a) (f_default b).
 
 Definition adef_eqb (a b : adef) : bool :=
   match a, b with
